@@ -197,7 +197,7 @@ def run_batch(bdir, prop, tier, seed, count, wallcap, outdir, nworkers):
             except OSError:
                 pass
             tail = open(os.path.join(outdir, "worker-%d.log" % w), "rb").read()[-4000:].decode("utf8", "replace")
-            if rc == 2 or prog.startswith("WALL-WATCHDOG"):
+            if rc == 12 or prog.startswith("WALL-WATCHDOG"):
                 trouble.append("worker %d exit %d: %s\n%s" % (w, rc, prog[:3000], tail))
                 continue
             m = re.match(r"run (\d+) seed (\d+)", prog)
@@ -236,7 +236,7 @@ def run_case(bdir, case, outdir, tag, runwall=180):
         prog = open(os.path.join(outdir, "progress-%d.txt" % wid)).read()
     except OSError:
         pass
-    if rc == 2 or prog.startswith("WALL-WATCHDOG"):
+    if rc == 12 or prog.startswith("WALL-WATCHDOG"):
         return {"class": "harness", "detail": "exit %d %s %s" % (rc, prog[:2000], out[-2000:])}
     return {"class": "violation", "sig": "process-death", "detail": "the worker process died (exit %d) while running this case:\n%s" % (rc, out[-3000:])}
 
